@@ -1,8 +1,12 @@
 package c12
 
 import (
+	"fmt"
+	"sort"
 	"strconv"
 	"strings"
+
+	"github.com/ozontech/file.d/zzverif/vreport"
 
 	. "github.com/ozontech/file.d/zzverif/vjson"
 )
@@ -11,6 +15,61 @@ import (
 
 func (w *worker) rt(s *subject, line string, want *V, tag string) {
 	w.check("rt", s, []byte(line), want, tag)
+	w.twin(s, []byte(line))
+}
+
+// twin: the same line through a real Pipeline.In configured with this decoder must give what the decoder's entry point
+// gives when it is called directly (Pipeline.In selects the decoder, prepares the root and adds nothing of its own).
+func (w *worker) twin(s *subject, line []byte) {
+	if s.pipe != nil || s.name == "cri" || w.stop {
+		return
+	}
+	pp := ""
+	if s.params != "" {
+		pp = `{"decoder_params":` + s.params + `}`
+	}
+	p := w.subject("pipe:"+s.name, pp)
+	a := w.exec(s, line, false)
+	b := w.exec(p, line, false)
+	w.r.Case()
+	w.r.Steps(1)
+	// csv invalid_line_mode=fatal: logger.Fatal on a wrong column count is the configured behaviour, counted as "reports an error"
+	if b.panicked && strings.Contains(b.stack, "CheckInvalidLine") && strings.Contains(b.stack, "logger.Fatalf") {
+		b.panicked, b.err = false, fmt.Errorf("invalid line (fatal mode)")
+	}
+	if a.panicked || b.panicked {
+		if b.panicked && !a.panicked {
+			w.viol("panic", map[string]string{"decoder": p.name, "kind": "twin", "site": vreport.PanicSite(b.stack)},
+				fmt.Sprintf("decoder=%s params=%s line=%q: Pipeline.In panics, the decoder alone does not: %s\n%s", s.name, s.params, line, b.pval, trimStack(b.stack)), mkcase("twin", p, line, "", ""))
+		}
+		return
+	}
+	same := (a.err != nil) == (b.err != nil) && (a.err != nil || canonDoc(a.out) == canonDoc(b.out))
+	if !same {
+		w.viol("pipe-differs", map[string]string{"decoder": s.name, "kind": "twin"},
+			fmt.Sprintf("decoder=%s params=%s line=%q\n through Pipeline.In: err=%v event=%s\n decoder alone:       err=%v event=%s", s.name, s.params, line, b.err, b.out, a.err, a.out), mkcase("twin", p, line, "", ""))
+		return
+	}
+	w.r.Outcome("twin", s.name, s.params, fmt.Sprint(a.err != nil), a.out)
+}
+
+func canonDoc(doc string) string {
+	v, err := Parse(doc)
+	if err != nil {
+		return doc
+	}
+	var sortRec func(*V)
+	sortRec = func(x *V) {
+		sort.SliceStable(x.Fields, func(i, j int) bool { return x.Fields[i].K < x.Fields[j].K })
+		for _, f := range x.Fields {
+			sortRec(f.V)
+		}
+		for _, e := range x.Elems {
+			sortRec(e)
+		}
+	}
+	sortRec(v)
+	return v.String()
 }
 
 func (w *worker) roundTrips(thorough bool) {
@@ -29,6 +88,25 @@ func (w *worker) roundTrips(thorough bool) {
 	n0 = w.r.R.Evaluations
 	w.rtCSV(thorough)
 	w.r.Count("rt_csv", w.r.R.Evaluations-n0)
+	n0 = w.r.R.Evaluations
+	for _, sp := range spaces(thorough) {
+		if strings.HasPrefix(sp.name, "pipe:") || sp.name == "cri" {
+			continue
+		}
+		subj := w.subject(sp.name, sp.params)
+		for _, c := range sp.canon {
+			for cut := 0; cut <= len(c); cut++ {
+				if w.stop {
+					return
+				}
+				if !w.mine() || (cut < len(c) && cut == 0) {
+					continue
+				}
+				w.twin(subj, []byte(c[:cut]))
+			}
+		}
+	}
+	w.r.Count("twin_canon", w.r.R.Evaluations-n0)
 }
 
 // ---- CRI --------------------------------------------------------------------
